@@ -68,6 +68,7 @@ func main() {
 	ncf := flag.String("nc", "", "print the necessary conditions of every block of module functions whose key contains this string")
 	wfuncs := flag.String("write-funcs", "", "write the function keys of -repo (the reference tree) to this file and exit")
 	flag.Parse()
+	verifDirGlobal = *verif
 	refRecvForm("") // initialise the reference-function table before anything runs in parallel
 	if *ncf != "" {
 		p, err := Load(LoadConfig{Dir: *repo})
